@@ -105,7 +105,13 @@ def run(chk, tier):
         if case.weights is not None and case.weights["kind"] == "scalar":
             case.weights = None
         pr = pl.PoolRun(env, kind, case, names, core.SEED + q)
-        serial = pr.fresh_serial()
+        try:
+            serial = pr.fresh_serial()
+        except Exception as e:  # noqa
+            # the plain serial evaluation of this cube fails: what it should have returned is the business of the
+            # properties about values (C02-C05, C13, C18); there is no reference to compare schedules with
+            chk.note("other-property=C03 serial reference evaluation raised %s: %s" % (type(e).__name__, str(e)[:120]))
+            continue
         record_outputs(env, OWN, pr, serial)
         if q % 3 == 0:
             # pre-history: the same cube object has already seen a pooled evaluation that was interrupted
